@@ -13,9 +13,15 @@
       bools and bytes below), GOMAXPROCS >= 1, initFunc never fails,
       0 <= wmin <= wmax, the MaxInt64 guard is out of reach ([no_overflow],
       discharged for up to 512 bits and distances up to 4 below).
-    - [chain a b l]: the intervals of [l] are non-empty, consecutive, from a to b. *)
+    - [chain a b l]: the intervals of [l] are non-empty, consecutive, from a to b.
+    - values (Proofs/BruteForceValues.v): [bit_of v p] = bit [p mod 8] of byte [p / 8];
+      [diff_bytes a b] / [diff_bools a b] = the positions in which [a] and [b] differ, in
+      increasing order; [hamming_bytes a b] / [hamming_bools a b] = how many there are;
+      [good_value P data wmin wmax t] = [t] is a byte string as long as [data], its
+      Hamming distance from [data] lies in the window, and P accepts it ([good_bools]
+      likewise). *)
 From CSS Require Import Lib.Base Lib.Cases Model.Comb Proofs.Comb
-     Model.BruteForce Model.BruteForceCases Proofs.BruteForce.
+     Model.BruteForce Model.BruteForceCases Proofs.BruteForce Proofs.BruteForceValues.
 
 (** ** The partition of the combination IDs into worker slices *)
 
@@ -142,6 +148,66 @@ Theorem C07_no_overflow_domain : forall total wmin wmax,
   total <= 512 -> wmax <= 4 -> no_overflow total wmin wmax.
 Proof. exact no_overflow_domain. Qed.
 Print Assumptions C07_no_overflow_domain.
+
+(** ** The property for VALUES: "some value within the requested Hamming-distance window" *)
+
+(** Any byte string of the same length is reached by flipping exactly the bit
+    positions in which it differs from the data - however long the string and
+    wherever the positions (8*j+b for byte j, bit b); they form a valid
+    combination and their number is the Hamming distance by definition. *)
+Theorem C07_bytes_reach : forall a b,
+  length b = length a -> Forall is_byte a -> Forall is_byte b ->
+  Valid (8 * Z.of_nat (length a) - 1) (diff_bytes a b) /\
+  flip_bytes (diff_bytes a b) a = Ok b /\
+  (forall p, In p (diff_bytes a b) <->
+             0 <= p < 8 * Z.of_nat (length a) /\ bit_of a p <> bit_of b p).
+Proof.
+  intros a b Hl Ha Hb. split; [apply diff_bytes_valid|]. split; [apply flip_bytes_diff; assumption|].
+  intro p. unfold diff_bytes. rewrite In_filter_seqZ, nat8.
+  destruct (bit_of a p), (bit_of b p); cbn; intuition congruence.
+Qed.
+Print Assumptions C07_bytes_reach.
+
+Theorem C07_bools_reach : forall a b, length b = length a ->
+  Valid (Z.of_nat (length a) - 1) (diff_bools a b) /\ flip_bools (diff_bools a b) a = Ok b.
+Proof. intros a b Hl. split; [apply diff_bools_valid|apply flip_bools_diff; assumption]. Qed.
+Print Assumptions C07_bools_reach.
+
+(** If some byte string within the Hamming window satisfies the predicate, every
+    outcome of the schedule relation is a result inside the window whose
+    flipping gives a satisfying value, and no satisfying value of the window is
+    closer to the data. *)
+Theorem C07_bytes_value_complete : forall (P : list Z -> bool) data wmin wmax gomax maxconc ifail,
+  Forall is_byte data -> Z.of_nat (length data) < I63 / 8 -> 1 <= gomax ->
+  (forall d i, ifail d i = false) -> 0 <= wmin <= wmax ->
+  no_overflow (8 * Z.of_nat (length data)) wmin wmax ->
+  forall t res, good_value P data wmin wmax t ->
+  bf_outcome flip_bytes P ifail gomax maxconc data 8 wmin wmax res ->
+  exists r v, res = Ok (Some r) /\ flip_bytes r data = Ok v /\ P v = true /\
+    wmin <= Z.of_nat (length r) <= wmax /\
+    forall t', good_value P data wmin wmax t' -> Z.of_nat (length r) <= hamming_bytes data t'.
+Proof. exact bytes_value_complete. Qed.
+Print Assumptions C07_bytes_value_complete.
+
+Theorem C07_bools_value_complete : forall (P : list bool -> bool) data wmin wmax gomax maxconc ifail,
+  Z.of_nat (length data) < I63 -> 1 <= gomax ->
+  (forall d i, ifail d i = false) -> 0 <= wmin <= wmax ->
+  no_overflow (Z.of_nat (length data)) wmin wmax ->
+  forall t res, good_bools P data wmin wmax t ->
+  bf_outcome flip_bools P ifail gomax maxconc data 1 wmin wmax res ->
+  exists r v, res = Ok (Some r) /\ flip_bools r data = Ok v /\ P v = true /\
+    wmin <= Z.of_nat (length r) <= wmax /\
+    forall t', good_bools P data wmin wmax t' -> Z.of_nat (length r) <= hamming_bools data t'.
+Proof. exact bools_value_complete. Qed.
+Print Assumptions C07_bools_value_complete.
+
+(** a value that differs from 64 zero bytes only in the last byte (bit positions
+    504 and 511, beyond what fits into 8 bits) is at distance 2 *)
+Example C07_ex_far_positions :
+  let data := repeat 0 64 in
+  let t := repeat 0 63 ++ [129] in
+  diff_bytes data t = [504; 511] /\ hamming_bytes data t = 2 /\ flip_bytes [504; 511] data = Ok t.
+Proof. exact ex_far_positions. Qed.
 
 (** ** The relation is never empty, and the checker of the correspondence run is sound for it *)
 
